@@ -5,7 +5,7 @@ from __future__ import annotations
 import ast
 
 from sa.cfg import ALL_GROUPS, CFG, G_BASE, G_EXC, G_PAUSE, N, all_paths_pass, both, dominators, find_path, fmt_path, reachable, reaches, specialize
-from sa.db import AnalysisError, bind_args, dotted, src, walk_local
+from sa.db import AnalysisError, FuncInfo, bind_args, dotted, src, walk_local
 from sa.flow import _Proj, assigned_names, defs_reaching, forward_states, reaching_defs
 from sa.model import contains, enclosing, execute_impl_funcs, superstep_funcs, template_classes
 from sa.summaries import NoRaise
@@ -129,7 +129,7 @@ def run(ctx) -> None:
     rep.rule("C12.R3", "shutdown once: in finally, guarded by top-level; internal run/map calls pass a parent span", floor=8)
     rep.rule("C12.R4", "node span id is published to the executor closure without an intervening suspension point", floor=4)
     rep.rule("C12.R5", "run/map emit nothing before validation has accepted the call", floor=4)
-    rep.rule("C12.R6", "a step's gather collects exceptions (waits for all siblings before the error surfaces)", floor=1)
+    rep.rule("C12.R6", "a gather collects exceptions, or no explicit raise escapes from the gathered coroutines (all siblings are awaited before an error surfaces)", floor=3)
     rep.assume(RUNNER_NO_RAISE_TEXT)
     base = runner_no_raise(db)
     nr = NoRaise(db, base)
@@ -432,6 +432,88 @@ def run(ctx) -> None:
                 rep.add("C12.R6", f"{ss.qname}:gather", ok, f"{ss.module.rel}:{c.lineno}", "gather(return_exceptions=True)" if ok else "gather without return_exceptions=True: a failing node surfaces while siblings still run (their spans close after RunEnd)")
             if dotted(c.func) in ("asyncio.wait", "asyncio.as_completed"):
                 rep.bad("C12.R6", f"{ss.qname}:{dotted(c.func)}", f"{ss.module.rel}:{c.lineno}", "completion-ordered waiting in a superstep")
+    # every other gather of the runners that does not collect exceptions gathers only coroutines
+    # from which no explicit raise escapes (else the first failure surfaces while siblings still emit)
+    def escaping_raises(f: FuncInfo, depth: int = 0) -> list[ast.Raise]:
+        fcfg = ctx.cfg(f, pred)
+        out = []
+        for n in fcfg.nodes:
+            if not (n.kind == "stmt" and isinstance(n.ast, ast.Raise)):
+                continue
+            todo = [t for t, l, _ in n.succ if l == "exc"]
+            seen = set()
+            esc = False
+            while todo:
+                x = todo.pop()
+                if x in seen:
+                    continue
+                seen.add(x)
+                if x is fcfg.exit_raise:
+                    esc = True
+                    break
+                if x.kind == "handler" or x is fcfg.exit_return:
+                    continue
+                todo += [t for t, _, _ in x.succ]
+            if esc:
+                out.append(n.ast)
+        if depth < 2:
+            for c_ in db.calls_in(f):
+                for cal in db.resolve_call(c_, f):
+                    g = cal.func
+                    if g is not None and g.parent is not None and g.parent is f.parent and g is not f:
+                        # a sibling closure awaited from here: its escaping raises escape from here too unless handled
+                        sub = escaping_raises(g, depth + 1)
+                        if sub:
+                            cn = fcfg.node_containing(c_)
+                            for n_ in cn:
+                                todo = [t for t, l, _ in n_.succ if l == "exc"]
+                                seen = set()
+                                while todo:
+                                    x = todo.pop()
+                                    if x in seen:
+                                        continue
+                                    seen.add(x)
+                                    if x is fcfg.exit_raise:
+                                        out += sub
+                                        todo = []
+                                        break
+                                    if x.kind == "handler" and fcfg.definitely_caught("Exception", fcfg._handler_names(x.ast)):
+                                        continue
+                                    todo += [t for t, _, _ in x.succ]
+        return out
+
+    n_g = 0
+    for f in db.funcs_in("runners"):
+        if not f.is_async or f in superstep_funcs(db):
+            continue
+        gi = -1
+        for c in sorted(db.calls_in(f), key=lambda c_: (c_.lineno, c_.col_offset)):
+            if dotted(c.func) != "asyncio.gather":
+                continue
+            gi += 1
+            kw = {k.arg: k.value for k in c.keywords}
+            if "return_exceptions" in kw and isinstance(kw["return_exceptions"], ast.Constant) and kw["return_exceptions"].value is True:
+                n_g += 1
+                rep.ok("C12.R6", f"{f.qname}:gather#{gi}", f"{f.module.rel}:{c.lineno}", "gather(return_exceptions=True)")
+                continue
+            n_g += 1
+            coros: list[FuncInfo] = []
+            for a in c.args:
+                v = a.value if isinstance(a, ast.Starred) else a
+                exprs = [v]
+                if isinstance(v, ast.Name):
+                    exprs = [d.value for d in db.local_defs(f).get(v.id, []) if getattr(d, "value", None) is not None]
+                for e in exprs:
+                    for x in ast.walk(e):
+                        if isinstance(x, ast.Call):
+                            for cal in db.resolve_call(x, f):
+                                if cal.func is not None and cal.func.is_async and cal.func not in coros:
+                                    coros.append(cal.func)
+            bad = [(g, r) for g in coros for r in escaping_raises(g)]
+            ok = bool(coros) and not bad
+            rep.add("C12.R6", f"{f.qname}:gather#{gi}", ok, f"{f.module.rel}:{c.lineno}", f"gathered coroutines ({', '.join(g.name for g in coros)}) have no escaping raise" if ok else (f"'{src(bad[0][1])}' at line {bad[0][1].lineno} escapes from {bad[0][0].name}() into a gather that does not collect exceptions: the call ends (RunEnd, shutdown) while sibling tasks still run and emit" if bad else "gathered coroutines not resolved"))
+    if n_g < 2:
+        raise AnalysisError(f"only {n_g} gather calls found outside the supersteps")
 
 
 def check_validate_first(ctx, rule: str) -> None:
